@@ -398,6 +398,13 @@ def cases(rng, which, count):
                 else:
                     sq = [("q%d" % i, "".join(rng.choice("ACGTN") for _ in range(rng.randint(1, 40)))) for i in range(rng.randint(1, 7))]
                     yield Case("cli_libf", [esc(fasta(sq)), "_", "divide", "--unaligned"] + fl, True, "cli-divide-unaligned")
+            elif w == "reformat-paml":
+                # `reformat paml` (write-only format): lengths around the line (60) and group (10) widths, 1-7 rows
+                Lp = rng.choice([1, 9, 10, 11, 59, 60, 61, 119, 120, 121, 130, rng.randint(1, 200), rng.randint(1, 200)])
+                pr = [("t%d" % i, "".join(rng.choice("ACGTacgtN-?*") for _ in range(Lp))) for i in range(rng.randint(1, 7))]
+                if rng.random() < 0.08:
+                    pr.append(("short", pr[0][1][:-1]))        # not an alignment: failing status
+                yield Case("cli_lib", [esc(fasta(pr)), "reformat", "paml"], True, "cli-reformat-paml")
             elif w == "nalign-phylip":
                 # `stats nalign -p`: the number of alignments of a Phylip input (1-5 alignments of their own dimensions and
                 # row names, blank lines between them, a last one that ends too early)
